@@ -47,10 +47,34 @@ Theorem C12_form_undecodable_is_400 : forall a p,
 Proof. exact form_undecodable_is_400. Qed.
 Print Assumptions C12_form_undecodable_is_400.
 
-(* The response render cache is transparent (never a stale rendering) ... *)
+(* The response render cache is transparent (never a stale rendering), for every sequence of
+   assignments (incl. re-assigning the SAME object), renders and in-place amendments of media
+   objects: the body is the content the object has when a render first needs it after the latest
+   assignment to resp.media (Spec.qstep) ... *)
 Theorem C12_render_cache_transparent : forall ops, snd (prun pinit ops) = qrun qinit ops.
 Proof. exact render_cache_transparent. Qed.
 Print Assumptions C12_render_cache_transparent.
+
+(* ... an assignment ALWAYS invalidates: from any state, assigning an object - the one already
+   assigned or another - and rendering serializes the content the object has now ... *)
+Theorem C12_reassign_renders_current : forall s x,
+  p_text s = None -> p_data s = None ->
+  snd (pstep (fst (pstep s (SetMedia (Some x)))) Render) = Some (BMedia x (version (p_muts s) x)).
+Proof. exact reassign_renders_current. Qed.
+Print Assumptions C12_reassign_renders_current.
+
+(* ... while an in-place amendment WITHOUT a new assignment leaves the body as rendered (by design:
+   media is serialized at most once per assignment) ... *)
+Theorem C12_mutate_keeps_rendering : forall s x,
+  let s1 := fst (pstep s Render) in
+  snd (pstep (fst (pstep s1 (Mutate x))) Render) = snd (pstep s Render).
+Proof. exact mutate_keeps_rendering. Qed.
+Print Assumptions C12_mutate_keeps_rendering.
+
+Theorem C12_version_is_mutation_count : forall ops x,
+  version (p_muts (fst (prun pinit ops))) x = mutations_of ops x.
+Proof. exact version_is_mutation_count. Qed.
+Print Assumptions C12_version_is_mutation_count.
 
 (* ... and media is serialized at most once per assignment. *)
 Theorem C12_serialize_once_per_assignment : forall ops,
@@ -81,9 +105,13 @@ Example C12_session_example :
   [RetDefault; Raise 0 ENotFound; RetDefault].
 Proof. reflexivity. Qed.
 
+(* render early, amend in place (body unchanged), re-assign the same object (new content), another
+   object, then text wins *)
 Example C12_render_example :
-  snd (prun pinit [SetMedia (Some 1); Render; Render; SetMedia (Some 2); Render; SetText (Some 3); Render]) =
-  [None; Some (BMedia 1); Some (BMedia 1); None; Some (BMedia 2); None; Some (BText 3)].
+  snd (prun pinit [SetMedia (Some 1); Render; Mutate 1; Render; SetMedia (Some 1); Render;
+                   SetMedia (Some 2); Render; SetText (Some 3); Render]) =
+  [None; Some (BMedia 1 0); None; Some (BMedia 1 0); None; Some (BMedia 1 1);
+   None; Some (BMedia 2 0); None; Some (BText 3)].
 Proof. reflexivity. Qed.
 
 (* ------------------------------------------------------------------ JSON codec (Json.v) *)
